@@ -383,6 +383,12 @@ pub(crate) struct LogReader {
     processed (e.g. during database recoveries).
     */
     current_block_offset: usize,
+
+    /**
+    True if any bytes of the log were skipped while reading e.g. a corrupted fragment or the
+    fragments of a record that was never finished.
+    */
+    has_skipped_data: bool,
 }
 
 /// Public methods
@@ -408,6 +414,7 @@ impl LogReader {
             initial_offset: initial_block_offset,
             current_cursor_position: initial_block_offset,
             current_block_offset: 0,
+            has_skipped_data: false,
         };
 
         Ok(reader)
@@ -441,13 +448,20 @@ impl LogReader {
             if let Err(physical_read_err) = maybe_record {
                 if let LogIOError::IO(db_io_error) = &physical_read_err {
                     match db_io_error.kind() {
-                        ErrorKind::UnexpectedEof => return Ok((vec![], true)),
+                        ErrorKind::UnexpectedEof => {
+                            if in_fragmented_record {
+                                // The file ends in the middle of a fragmented record
+                                self.has_skipped_data = true;
+                            }
+                            return Ok((vec![], true));
+                        }
                         _ => return Err(physical_read_err),
                     }
                 }
 
                 // A corrupted fragment invalidates the record it belongs to. Drop what has been
                 // collected so far and resynchronize on the start of the next record.
+                self.has_skipped_data = true;
                 in_fragmented_record = false;
                 data_buffer.clear();
             } else {
@@ -457,10 +471,16 @@ impl LogReader {
                     BlockType::Full => {
                         // Any pending fragments belong to a record that was never completed
                         // (e.g. the writer died before writing the last fragment).
+                        if in_fragmented_record {
+                            self.has_skipped_data = true;
+                        }
                         return Ok((record.data, false));
                     }
                     BlockType::First => {
                         // Same as above, an unfinished record is dropped
+                        if in_fragmented_record {
+                            self.has_skipped_data = true;
+                        }
                         data_buffer = record.data;
                         in_fragmented_record = true;
                     }
@@ -468,6 +488,8 @@ impl LogReader {
                         // A middle fragment without a start is skipped
                         if in_fragmented_record {
                             data_buffer.extend(record.data);
+                        } else {
+                            self.has_skipped_data = true;
                         }
                     }
                     BlockType::Last => {
@@ -476,10 +498,25 @@ impl LogReader {
                             data_buffer.extend(record.data);
                             return Ok((data_buffer, false));
                         }
+                        self.has_skipped_data = true;
                     }
                 }
             }
         }
+    }
+}
+
+/// Crate-only methods
+impl LogReader {
+    /**
+    Returns true if the reader consumed the whole file and every byte of it belonged to a
+    complete, well-formed record (or to block padding).
+
+    A log that ends in a partially written record or that contains skipped fragments must not be
+    appended to: records written after the damaged region would be unreachable for later readers.
+    */
+    pub(crate) fn was_read_cleanly_to_end(&self) -> LogIOResult<bool> {
+        Ok(!self.has_skipped_data && (self.current_cursor_position as u64) == self.len()?)
     }
 }
 
